@@ -134,4 +134,31 @@ theorem providerValidate_ok : providerValidate = ([
 theorem skel_ProviderVerifierOptions_toOIDCConfig_ok : skel_ProviderVerifierOptions_toOIDCConfig = ([
   "return &oidc.Config{ ClientID: p.ClientID, SkipIssuerCheck: p.SkipI"] : List String) := rfl
 
+theorem skel_Manager_Load_ok : skel_Manager_Load = ([
+  "decodeTicketFromRequest",
+  "if err != nil",
+  "return nil, err",
+  "return tckt.loadSession( func(key string) ([]byte, error) { return",
+  "tckt.loadSession",
+  "func{",
+  "return m.Store.Load(req.Context(), key)",
+  "m.Store.Load"] : List String) := rfl
+
+theorem skel_Manager_Save_ok : skel_Manager_Save = ([
+  "if s.CreatedAt == nil || s.CreatedAt.IsZero()",
+  "s.CreatedAtNow",
+  "decodeTicketFromRequest",
+  "if err != nil",
+  "newTicket",
+  "if err != nil",
+  "return fmt.Errorf(\"error creating a session ticket: %v\", err)",
+  "tckt.saveSession",
+  "func{",
+  "return m.Store.Save(req.Context(), key, val, exp)",
+  "m.Store.Save",
+  "if err != nil",
+  "return err",
+  "return tckt.setCookie(rw, req, s)",
+  "tckt.setCookie"] : List String) := rfl
+
 end O2P.Expect.C09
